@@ -11,6 +11,7 @@ struct Base {
     ops: Vec<Q>,
     chunks: Vec<usize>,
     intr: u64,
+    pos0: u64,
     note: String,
 }
 
@@ -39,7 +40,8 @@ fn gen_base(c: &mut Choice) -> Base {
         ops.push(ops[j].clone());
     }
     let (chunks, intr) = stream::gen_reader_behaviour(c, 24);
-    Base { data, ops, chunks, intr, note }
+    let pos0 = stream::gen_initial_pos(c, data.len());
+    Base { data, ops, chunks, intr, pos0, note }
 }
 
 #[derive(Debug)]
@@ -50,7 +52,7 @@ struct RunResult {
 
 /// Run open + ops under a fault schedule. For every call, record whether a fault fired during it.
 fn run_with(b: &Base, faults: Vec<Fault>, ctx: &str) -> Result<(RunResult, Vec<bool>, u64), String> {
-    let reader = Reader::with(b.data.clone(), b.chunks.clone(), b.intr, faults);
+    let reader = Reader::with(b.data.clone(), b.chunks.clone(), b.intr, faults).at_position(b.pos0);
     let mut fired_during: Vec<bool> = vec![];
     let f0 = reader.fired();
     let opened = guard(|| open_stream_as(AnyEndian::Little, reader.clone())).map_err(|p| format!("{}: open_stream panicked: {}", ctx, p))?;
